@@ -216,7 +216,7 @@ inline bool sameMesh(const PolygonalMesh& m, const PolyData& E, std::string& why
 static const char* FMT[4] = {"obj", "vtp", "stl-ascii", "stl-binary"};
 
 inline void roundTripChecks(vh::Ctx& c, vh::Rng& r, long idx) {
-    int fmt = (int)(idx % 4), pcls = (int)((idx / 4) % 6), variant = (int)((idx / 24) % 5);
+    int variant = (int)(idx % 5), fmt = (int)((idx / 5) % 4), pcls = (int)((idx / 20 + idx) % 6);
     PolyData P = genPoly(pcls, r);
     bool trisOnly = true; for (auto& f : P.f) if (f.size() != 3) trisOnly = false;
     if (fmt >= 2 && !trisOnly) {
@@ -274,7 +274,7 @@ inline void roundTripChecks(vh::Ctx& c, vh::Rng& r, long idx) {
             c.check("roundtrip-normals:vtp", worst, 1e-12, W("per-vertex normals differ from the file"));
         }
         // appending a second file to the same mesh: "adding the vertices, faces ... to this mesh"
-        if ((idx / 120) % 3 == 0 && fmt != 2 && fmt != 3) {
+        if (idx % 3 == 0 && fmt != 2 && fmt != 3) {
             c.setPhase("round trip append " + cell);
             try {
                 mesh.loadFile(path);
@@ -312,7 +312,7 @@ inline bool walkLoaded(const PolygonalMesh& m, std::string& why) {
 }
 
 inline void malformedChecks(vh::Ctx& c, vh::Rng& r, long idx) {
-    int fmt = (int)(idx % 4), mal = (int)((idx / 4) % NMAL);
+    int mal = (int)(idx % NMAL), fmt = (int)((idx / NMAL + idx) % 4);
     PolyData P = genPoly((int)((idx / 40) % 2), r);      // closed triangle meshes
     bool dummy;
     std::string content, ext;
